@@ -595,6 +595,25 @@ where
             }
         }
         visit_all(&mut Other { w, m: &bulk, own: T::NAME, case: &case });
+        // the reverse confusion: a REAL typed array of the component type itself (2n scalars: an even count,
+        // the same width) is not a complex array
+        {
+            let scalars: Vec<T> = make(2 * n, rot);
+            for (enc, m) in [("bulk", base_builder(q).body_typed_slice(&scalars).build()), ("generic", base_builder(q).body_beve(&scalars).expect("body_beve").build())] {
+                if enc == "generic" && n == 0 {
+                    continue; // the generic empty encoding names no element type (known finding D6)
+                }
+                w.add(C::impl_calls, 2);
+                match m.decode_complex_slice::<T>() {
+                    Err(_) => w.inc(C::wrong_type_rejected_bulk_decoder),
+                    Ok(d) => w.fail(
+                        "C08:wrong-type-accepted:Message::decode_complex_slice:real-array".into(),
+                        || format!("{enc} body of {}[{}] ({}) decoded as complex<{}> x{}", T::NAME, 2 * n, hex(&m.body), T::NAME, d.len()),
+                        &case,
+                    ),
+                }
+            }
+        }
     });
 }
 
